@@ -604,12 +604,14 @@ func (e *ConnEnd) Write(p []byte) (int, error) {
 	}
 	now := time.Now()
 	at := now.Add(lat)
-	if at.Before(h.lastAt) {
-		at = h.lastAt
+	if !at.After(h.lastAt) && h.inflight > 0 {
+		// strictly after everything still in flight: two timers due at the same
+		// instant may fire in either order, a byte stream may not reorder
+		at = h.lastAt.Add(time.Nanosecond)
 	}
 	h.lastAt = at
 	if len(pass) > 0 {
-		if lat == 0 && !at.After(now) {
+		if h.inflight == 0 && !at.After(now) {
 			h.buf = append(h.buf, pass...)
 			h.delivered += int64(len(pass))
 		} else {
